@@ -202,3 +202,69 @@ Proof.
   split; [vm_compute; reflexivity|]. split; [apply deps_coverb_sound; vm_compute; reflexivity|].
   split; [vm_compute; reflexivity|]. split; vm_compute; reflexivity.
 Qed.
+
+(* ------------------------------------------------------------------ *)
+(* several roots *)
+Section DFSroots.
+Variable succ : nat -> list nat.
+Variable n : nat.
+Hypothesis acyclic : forall x, ~ clos_trans nat (E succ) x x.
+Hypothesis bounded : forall x y, E succ x y -> (y < n)%nat.
+
+Lemma postorder_respects_roots roots : (forall x, In x roots -> (x < n)%nat) ->
+  let out := postorder (S n) succ roots in
+  (forall x, In x roots -> In x out) /\
+  forall v w, In v out -> E succ v w -> In w out /\ before w v out.
+Proof.
+  intro HR. unfold postorder.
+  assert (G : forall l st, (forall x, In x l -> (x < n)%nat) -> inv succ [] (fst st) (snd st) ->
+            let st' := fold_left (fun s x => gvisit (S n) succ x s) l st in
+            inv succ [] (fst st') (snd st') /\ (forall x, In x l -> In x (snd st')) /\
+            exists ext, snd st' = snd st ++ ext).
+  { induction l as [|x l IH]; intros st Hl HI; cbv zeta; cbn [fold_left].
+    - split; [exact HI|]. split; [intros x []|]. exists []. rewrite app_nil_r. reflexivity.
+    - destruct (gvisit_post succ n acyclic bounded (S n) x [] st) as [I1 [Ix [_ [ext Eext]]]];
+        [constructor | intros v [] | apply Hl; left; reflexivity | simpl; lia | exact HI |].
+      pose proof (IH (gvisit (S n) succ x st)) as IH'. cbv zeta in IH'.
+      destruct IH' as [J1 [Jall [ext2 Eext2]]];
+        [intros y Hy; apply Hl; right; exact Hy | exact I1 |].
+      split; [exact J1|]. split.
+      + intros y [<-|Hy]; [rewrite Eext2; apply in_or_app; left; exact Ix | apply Jall; exact Hy].
+      + exists (ext ++ ext2). rewrite Eext2, Eext, app_assoc. reflexivity. }
+  destruct (G roots ([], []) HR) as [[_ [_ I3]] [Hall _]].
+  - simpl. split; [intros v []|]. split; intros v; [intros [] | intros w []].
+  - split; [exact Hall | exact I3].
+Qed.
+End DFSroots.
+
+Lemma before_filter (p : nat -> bool) x y l : before x y l -> p x = true -> p y = true -> before x y (filter p l).
+Proof.
+  intros [l1 [l2 [l3 ->]]] Hx Hy. rewrite !filter_app. simpl. rewrite Hx, Hy.
+  exists (filter p l1), (filter p l2), (filter p l3). reflexivity.
+Qed.
+
+(* inside a chunk: a file is emitted after every file of the chunk that it imports
+   (statically, or by require()/import() that stays inside the chunk), provided the
+   walked import graph has no cycle and import records point at existing files *)
+Theorem chunk_order_respects_imports_all g a c f f' :
+  (forall x, ~ clos_trans nat (E (osucc g a c)) x x) ->
+  (forall x y, In y (osucc g a c x) -> (y < nfiles g)%nat) ->
+  (forall x, In x (c_files c) -> (x < nfiles g)%nat) -> (0 < nfiles g)%nat ->
+  In f (chunk_order g a c) -> In f' (osucc g a c f) -> in_chunk a c f' = true ->
+  In f' (chunk_order g a c) /\ before f' f (chunk_order g a c).
+Proof.
+  intros AC BD HC H0 Hf Hs Hin. unfold chunk_order in *.
+  set (roots := (0%nat :: fold_right (insert_by g a) [] (c_files c))) in *.
+  assert (HR : forall x, In x roots -> (x < nfiles g)%nat).
+  { intros x [<-|Hx]; [exact H0|]. apply HC.
+    assert (P : forall l, Permutation l (fold_right (insert_by g a) [] l)).
+    { induction l as [|y l IH]; simpl; [constructor|].
+      eapply perm_trans; [apply perm_skip; exact IH|].
+      generalize (fold_right (insert_by g a) [] l). intro m. induction m as [|z m IHm]; simpl; [apply Permutation_refl|].
+      destruct (key_ltb _ _); [apply Permutation_refl|]. eapply perm_trans; [apply perm_swap|]. apply perm_skip. exact IHm. }
+    eapply Permutation_in; [apply Permutation_sym; apply P | exact Hx]. }
+  destruct (postorder_respects_roots (osucc g a c) (nfiles g) AC BD roots HR) as [_ R].
+  apply filter_In in Hf as [Hf Hpf].
+  destruct (R f f' Hf Hs) as [R1 R2].
+  split; [apply filter_In; split; assumption | apply before_filter; assumption].
+Qed.
